@@ -77,9 +77,9 @@ def build_argv(C):
     if C.get("qbase", 33) != 33:
         a += ["--quality-base", str(C["qbase"])]
     for ad in C.get("ads1", []):
-        a += ["-" + (ad["linked"][0]["opt"] if ad.get("linked") else ad["opt"]), adapter_arg(ad)]
+        a += ["-" + (ad.get("_opt", ad["linked"][0]["opt"]) if ad.get("linked") else ad["opt"]), adapter_arg(ad)]
     for ad in C.get("ads2", []):
-        a += ["-" + (ad["linked"][0]["opt"] if ad.get("linked") else ad["opt"]).upper(), adapter_arg(ad)]
+        a += ["-" + (ad.get("_opt", ad["linked"][0]["opt"]) if ad.get("linked") else ad["opt"]).upper(), adapter_arg(ad)]
     if C.get("ads1") or C.get("ads2"):
         a += ["--no-index"] if not C.get("index") else []
         if C.get("error_rate") is not None:
